@@ -421,13 +421,20 @@ def sc_import_entry(V, module="quansino.moves"):
     src = os.environ.get("QVERIF_SRC")
     env = dict(os.environ)
     env["PYTHONWARNINGS"] = "ignore"
+    names = sorted(n for n in discover() if n not in ABSTRACT_BASES) + list(DRIVER_SETTINGS)
+    # the user imports `module` first and then only what rebuilding a simulation needs (quansino.mc, the
+    # home of the drivers and of from_dict): every shipped serializable class must be registered by then
     code = (
         "import importlib,sys\n"
         f"importlib.import_module({module!r})\n"
-        "import quansino.mc, quansino.moves, quansino.operations, quansino.integrators, quansino.utils, quansino.io\n"
+        "import quansino.mc\n"
         "from quansino.registry import get_class\n"
-        "from quansino.operations.displacement import Ball\n"
-        "assert get_class('Ball') is Ball\n"
+        f"missing=[n for n in {names!r} if not _ok(n)] if False else []\n"
+        f"names={names!r}\n"
+        "for n in names:\n"
+        "    try: get_class(n)\n"
+        "    except KeyError: missing.append(n)\n"
+        "assert not missing, 'not registered: ' + ','.join(missing)\n"
         "print('ok')\n"
     )
     p = subprocess.run([PY if V.mode == "sym" else sys.executable, "-c", code], capture_output=True, text=True, env=env, timeout=120)
